@@ -209,27 +209,66 @@ def invoke(uf, method, args, kw, idx, b):
     return getattr(uf, method)(*args, **kw)
 
 
-def make_out(case, shape, dtype, variant):
-    """The object handed over as out= for one output (pre-filled with a recognisable value)."""
+LAYOUTS = ('C', 'F', 'S')
+SENTINEL = 99
+
+
+def lay(arr, layout):
+    """A fresh array with the values of `arr` in the memory layout 'C', 'F' (Fortran order) or 'S' (a strided
+    view: every second entry along the last axis of a bigger buffer whose gaps hold SENTINEL)."""
+    arr = np.asarray(arr)
+    if arr.ndim == 0 or layout == 'C':
+        return np.array(arr, order='C')
+    if layout == 'F':
+        return np.array(arr, order='F')
+    big = np.full(arr.shape[:-1] + (2 * arr.shape[-1],), SENTINEL, dtype=arr.dtype)
+    view = big[..., ::2]
+    view[...] = arr
+    return view
+
+
+def gaps_intact(view):
+    """The entries of the backing buffer of a strided view that do not belong to the view still hold SENTINEL."""
+    big = view.base
+    if big is None or big.shape == view.shape:
+        return True
+    return bool(np.all(big[..., 1::2] == np.asarray(SENTINEL).astype(big.dtype)))
+
+
+def data_of(el):
+    """The ndarray(s) an element stores its values in."""
+    if hasattr(el, 'tensor'):
+        return [el.tensor.data]
+    if hasattr(el, 'data'):
+        return [el.data]
+    return [d for part in el for d in data_of(part)]
+
+
+def make_out(case, shape, dtype, variant, layout='C'):
+    """The object handed over as out= for one output (pre-filled with a recognisable value), stored in the given
+    memory layout.  Returns (out object, backing array)."""
     ok = case['outkind']
     shape = tuple(shape)
     dt = np.dtype(dtype)
     fill = 77 if dt.kind != 'b' else True
+    back = lay(np.full(shape, fill, dtype=dt), layout)
     if ok == 'ndarray':
-        return np.full(shape, fill, dtype=dt)
+        return back, back
     kind = case['kind'] if ok == 'element' else 'tensor'
     sp = make_space(kind, shape, dt, variant if kind != 'power' else 0)
-    return sp.element(np.full(shape, fill, dtype=dt))
+    return sp.element(back), back
 
 
 class NotApplicable(Exception):
     pass
 
 
-def run_case(case, uf, dtype, variant=0, exact_inputs=True, cplx=False):
+def run_case(case, uf, dtype, variant=0, exact_inputs=True, cplx=False, layout='C'):
     """Execute one configuration with one ufunc and one dtype on real ODL elements.
     Returns the event for Trace_Ufunc (without id) or raises NotApplicable (NumPy itself refuses the call on
-    plain arrays, or the out object cannot be built)."""
+    plain arrays, or the out object cannot be built).
+    layout: memory layout of every operand (element storage and plain arrays) and of every out object:
+    'C', 'F' or 'S' (strided view); the elements WRAP caller-owned arrays of that layout without copy."""
     name = uf.__name__
     method = case['method']
     shapes = [tuple(s) for s in case['shapes']]
@@ -250,10 +289,22 @@ def run_case(case, uf, dtype, variant=0, exact_inputs=True, cplx=False):
     idx = list(case['idx'])
     b = np.asarray(2).astype(dt)[()]
     # ---- reference on the raw arrays (the oracle of the property) ----
-    raw_args = (xs.copy(),) if nin == 1 or method in ('reduce', 'accumulate', 'at', 'reduceat') else (xs.copy(), ys.copy())
+    # "the underlying arrays" have the SAME memory layout as the element storage (NumPy's summation order depends
+    # on the strides), and with out= the reference gets an out array of that layout as well
+    # (a power-space element has no single underlying array: its asarray() is a new C-ordered array)
+    single = nin == 1 or method in ('reduce', 'accumulate', 'at', 'reduceat')
+    lx = 'C' if case['kind'] == 'power' and case['order'] != 'ae' else layout
+    ly = 'C' if case['kind'] == 'power' and case['order'] != 'ea' else layout
+    raw_args = (lay(xs, lx),) if single else (lay(xs, lx), lay(ys, ly))
     with np.errstate(all='ignore'):
         try:
             ref = invoke(uf, method, raw_args, dict(kw), idx, b)
+            if case['outkind'] != 'none' and method != 'at':
+                first = list(ref) if isinstance(ref, tuple) else [ref]
+                ref_outs = [lay(np.zeros(np.shape(r), dtype=np.asarray(r).dtype), layout) for r in first]
+                raw2 = (lay(xs, lx),) if single else (lay(xs, lx), lay(ys, ly))
+                ref = invoke(uf, method, raw2, dict(kw, out=ref_outs[0] if len(ref_outs) == 1 else tuple(ref_outs)),
+                             idx, b)
         except (TypeError, ValueError, IndexError) as e:
             raise NotApplicable('numpy: ' + type(e).__name__)
     if method == 'at':
@@ -267,30 +318,39 @@ def run_case(case, uf, dtype, variant=0, exact_inputs=True, cplx=False):
         sp_y = make_space(case['kind'], shapes[1] if len(shapes) == 2 else shapes[0], dt_y, variant)
     except Exception as e:
         raise NotApplicable('space: ' + type(e).__name__)
-    x_el = sp_x.element(xs.copy())
-    y_el = sp_y.element(ys.copy())
+    x_back, y_back = lay(xs, layout), lay(ys, layout)      # caller-owned arrays wrapped by the elements
+    x_el = sp_x.element(x_back)
+    y_el = sp_y.element(y_back)
+    wrapshare = int(all(np.shares_memory(x_back, d) for d in data_of(x_el)) and
+                    all(np.shares_memory(y_back, d) for d in data_of(y_el)))
     order = case['order']
     if len(raw_args) == 1:
         args = (x_el,)
+        backs = [x_back]
     elif order == 'ee':
         args = (x_el, y_el)
+        backs = [x_back, y_back]
     elif order == 'ea':
-        args = (x_el, ys.copy())
+        args = (x_el, y_back)
+        backs = [x_back, y_back]
     else:
-        args = (xs.copy(), y_el)
+        args = (x_back, y_el)
+        backs = [x_back, y_back]
     pre = [as_array(a).copy() for a in args]
     # ---- out objects ----
     outs = []
     if case['outkind'] != 'none':
         try:
-            outs = [make_out(case, r.shape, r.dtype, variant) for r in refs]
+            pairs = [make_out(case, r.shape, r.dtype, variant, layout) for r in refs]
+            outs = [p[0] for p in pairs]
+            backs += [p[1] for p in pairs]
         except Exception as e:
             raise NotApplicable('out: ' + type(e).__name__)
         kw['out'] = outs[0] if len(outs) == 1 else tuple(outs)
     ev = {'k': 'uf', 'case': case, 'name': name, 'dt': dt.name, 'dtk': dtk, 'variant': variant, 'err': '',
           'rkind': [], 'rshape': [], 'rdtype': [], 'ref_shape': [list(r.shape) for r in refs],
           'ref_dtype': [r.dtype.name for r in refs], 'ulp': [], 'isout': [], 'outulp': [], 'unchanged': 1,
-          'exact': 0, 'xin': [], 'yin': [], 'b': [[2, 1], [0, 1]], 'vals': []}
+          'layout': layout, 'wrapshare': wrapshare, 'backulp': 0, 'gaps': 1, 'exact': 0, 'xin': [], 'yin': [], 'b': [[2, 1], [0, 1]], 'vals': []}
     info = {}
     with np.errstate(all='ignore'):
         try:
@@ -328,6 +388,11 @@ def run_case(case, uf, dtype, variant=0, exact_inputs=True, cplx=False):
             continue
         if not same_bits(as_array(a), p):
             ev['unchanged'] = 0
+    # `at` works in place: the caller's array that the element wraps holds the new values as well
+    if method == 'at' and wrapshare:
+        ev['backulp'] = ulp_distance(x_back, refs[0])
+    # nothing outside the (strided) views of operands and out objects was written
+    ev['gaps'] = int(all(gaps_intact(bk) for bk in backs))
     # exact ufuncs: hand the inputs and the observed values to the specification
     exact_name = name in (EXACT_UNARY if nin == 1 else EXACT_BINARY)
     if exact_name and exact_inputs and not (cplx and dt.kind == 'c' and name in REAL_ONLY) and \
@@ -343,13 +408,12 @@ def run_case(case, uf, dtype, variant=0, exact_inputs=True, cplx=False):
 def wrap_event(kind, shape, dtype, order, variant=0):
     dt = np.dtype(dtype)
     sp = make_space(kind, shape, dt, variant)
-    arr = np.asarray(canon(shape, 'x', dt), order=order)
-    arr = np.array(arr, order=order)
+    arr = lay(canon(shape, 'x', dt), order)
     el = sp.element(arr)
     if kind == 'power':
         shares = all(np.shares_memory(arr, as_array(el[i])) for i in range(len(el)))
     else:
-        shares = bool(np.shares_memory(arr, el.asarray()))
+        shares = bool(np.shares_memory(arr, el.asarray())) and all(np.shares_memory(arr, d) for d in data_of(el))
     roundtrip = same_bits(as_array(el), arr)
     arr[(0,) * arr.ndim] = 55                      # a view sees a write to the wrapped array
     sees = bool(as_array(el)[(0,) * arr.ndim] == 55)
